@@ -1,0 +1,37 @@
+//go:build verif
+
+package db
+
+// Contracts for the deductive verifier in /verif (govc). This file contains comments only; it is compiled
+// only with the build tag "verif" and adds no code. Syntax: /verif/DESIGN.md, Appendix A.
+
+//@ prelude db.smt2 time.smt2 hash.smt2
+
+// needsUpdate equals the decision formula of the statement (C11) for every strategy byte and every combination
+// of facts reported by the backend; "missing" counts a certificate request as key material.
+//@ func needsUpdate returns (res)
+//@   props C11 C10
+//@   let S = DbState(backend)
+//@   let CFG = (if cfg != nil then cfg else typed(dbCfg(S, alias), "*github.com/wokdav/gopki/generator/config.CertificateContent"))
+//@   let META = typed(dbMeta(S, alias), "*github.com/wokdav/gopki/generator/db.Metadata")
+//@   let IMETA = typed(dbMeta(S, CFG.Issuer), "*github.com/wokdav/gopki/generator/db.Metadata")
+//@   let ART = typed(dbArt(S, alias), "*github.com/wokdav/gopki/generator/db.BuildArtifact")
+//@   let HASH = digest(1, jsonBytes(deep(typed(blankV(deref(CFG)), "github.com/wokdav/gopki/generator/config.CertificateContent"))))
+//@   requires cfg != nil ==> dbCfg(S, alias) != 0
+//@   let NOERR = dbCfgErr(S, alias) == #nilAny && dbCfgErr(S, CFG.Issuer) == #nilAny && dbMetaErr(S, alias) == #nilAny && dbMetaErr(S, CFG.Issuer) == #nilAny && dbArtErr(S, alias) == #nilAny
+//@   ensures @C11,C10 cfg == nil && (dbCfgErr(S, alias) != #nilAny || dbCfg(S, alias) == 0) ==> !res
+//@   ensures @C11,C10 !(cfg == nil && dbCfg(S, alias) == 0) && NOERR ==> res == ((strat & 16) != 0 || (strat != 0 && dbCfg(S, CFG.Issuer) != 0 && after(IMETA.LastBuild, META.LastBuild)) || ((strat & 4) != 0 && after(META.LastConfigUpdate, META.LastBuild)) || ((strat & 2) != 0 && ART.Certificate != nil && after(nowAt(1), ART.Certificate.TBSCertificate.Validity.NotAfter) && after(CFG.Validity.Until, nowAt(2))) || ((strat & 1) != 0 && (ART.Certificate == nil || (ART.PrivateKey == nil && ART.Request == nil))) || ((strat & 8) != 0 && META.LastConfigHash != nil && bytes(META.LastConfigHash) != HASH))
+//@   watch dbCfgErr(S, alias) != #nilAny
+//@   watch dbCfg(S, CFG.Issuer) != 0
+//@   watch dbArtErr(S, alias) != #nilAny
+//@   watch ART.Certificate != nil
+//@   watch ART.PrivateKey != nil
+//@   watch ART.Request != nil
+//@   watch META.LastConfigHash != nil
+//@   watch after(IMETA.LastBuild, META.LastBuild)
+//@   watch after(META.LastConfigUpdate, META.LastBuild)
+//@   watch after(nowAt(1), ART.Certificate.TBSCertificate.Validity.NotAfter)
+//@   watch after(CFG.Validity.Until, nowAt(2))
+//@   watch bytes(META.LastConfigHash) != HASH
+//@   replay TestVerifReplayNeedsUpdate
+//@   bounded TestVerifBoundedNeedsUpdate
